@@ -330,7 +330,7 @@ def gen_state(rng, case):
         elif kind == 3:
             s1 = float(rng.uniform(0.05, 0.7))
         elif kind == 4:
-            s1 = float([1e-2, 3e-2, 0.1, 0.2][(case // 6) % 4])
+            s1 = float([1e-2, 3e-2, 0.1, 0.2, 3e-3, 1e-3, 1e-4, 1e-7, 1e-9][(case // 6) % 9])
         else:
             basis = np.eye(4)[(case // 6) % 4]
             return basis.astype(complex) * pick_phase(rng), 0.0
